@@ -517,6 +517,35 @@ def masks_and_prefixes(rep, fnd, pid, tier):
                                       % (list(skip), cfg), {"api": "DTCWTForward", "check": "skip_hps", "cfg": cfg})
                     else:
                         n_ok += 1
+                # ---- the two selections TOGETHER (each is "only select": their combination must select both ways at once),
+                # with the mask given as list / tuple / ndarray, in the default and one other layout
+                if J <= 3:
+                    for kmask, (inc, skip) in enumerate(itertools.product(itertools.product([False, True], repeat=J), repeat=2)):
+                        if not any(inc) or not any(skip):
+                            continue
+                        wrap = [list, tuple, np.array][kmask % 3]
+                        lay = dict(o_dim=1, ri_dim=2) if (kmask % 5 == 0) else {}
+                        cfg = dict(J=J, include_scale=list(inc), skip_hps=list(skip), mask_type=wrap.__name__, biort=b, qshift=q, shape=list(shp), **lay)
+                        rep.validated()
+                        rep.nontriv(("include_x_skip", J, inc, skip, shp, b))
+                        try:
+                            sc, yh4 = pw.DTCWTForward(J=J, biort=b, qshift=q, include_scale=wrap(inc), skip_hps=wrap(skip), **lay)(x)
+                        except Exception as e:   # noqa
+                            rep.violation("include_scale=%s with skip_hps=%s raised %r at %s" % (list(inc), list(skip), e, cfg),
+                                          {"api": "DTCWTForward", "check": "include_x_skip", "cfg": cfg})
+                            continue
+                        ref_h = yh if not lay else pw.DTCWTForward(J=J, biort=b, qshift=q, **lay)(x)[1]
+                        ok = len(sc) == J and len(yh4) == J
+                        for j in range(J):
+                            if not ok:
+                                break
+                            ok = ok and (torch.equal(sc[j], lows_short[j][0]) if inc[j] else sc[j].numel() <= 1)
+                            ok = ok and (yh4[j].numel() <= 1 if skip[j] else torch.equal(yh4[j], ref_h[j]))
+                        if not ok:
+                            rep.violation("include_scale=%s together with skip_hps=%s: a requested lowpass or a level that was not skipped is missing "
+                                          "or changed at %s" % (list(inc), list(skip), cfg), {"api": "DTCWTForward", "check": "include_x_skip", "cfg": cfg})
+                        else:
+                            n_ok += 1
     rep.count("mask_cases_ok", n_ok)
 
 
